@@ -546,6 +546,26 @@ func c16syncVsReads(c *fw.Ctx) {
 			}
 		}
 	}()
+	// the pending set (the one synced node) is saved into the trie's own memory store again and again while cold handles
+	// read that store
+	wg.Add(2)
+	go func() {
+		defer wg.Done()
+		for i := 0; i < 25; i++ {
+			_ = shared.SaveChanges(context.Background(), store, false)
+		}
+	}()
+	go func() {
+		defer wg.Done()
+		for i := 0; i < 25; i++ {
+			cold := lab.NewMPT(store, c16version, root)
+			for p, v := range mdl {
+				if d, err := cold.GetNodeValueRaw(util.Path(p)); err != nil || !bytes.Equal(d, v) {
+					bad.Store(fmt.Sprintf("cold lookup %q on the trie's store while it is being saved into = %q, %v", p, d, err))
+				}
+			}
+		}
+	}()
 	for gi := 0; gi < 2+r.Intn(3); gi++ {
 		wg.Add(1)
 		go func(gi int) {
@@ -590,6 +610,10 @@ func c16readers(c *fw.Ctx) {
 	}
 	r := c.Rng
 	g := lab.NewPathGen(r)
+	if strings.Contains(g.Alphabet, "7") {
+		g.Alphabet = "01ef" // the writers below own the paths starting with 7: the preloaded content stays clear of them
+	}
+	g.MaxLen = 12
 	full := util.NewMemoryNodeDB()
 	m0 := lab.NewMPT(full, c16version, nil)
 	mdl := map[string][]byte{}
